@@ -627,10 +627,10 @@ impl Process for JsonProcess {
 //@@ rewrite underscore_param
 //@@ endfn
 //@@ fn jsonprocess.complete = src/output_style.rs :: impl Process for JsonProcess :: fn complete
-//@@ safety C02 C03 C16 C20 C06
+//@@ safety C02 C03 C16 C20 C06 C11
 //@@ endfn
 //@@ fn jsonprocess.process = src/output_style.rs :: impl Process for JsonProcess :: fn process
-//@@ safety C02 C03 C16 C20 C06
+//@@ safety C02 C03 C16 C20 C06 C11
 //@@ rewrite write_macros
 //@@ before "Ok(ProcessDesision::Continue)"
         proof {
@@ -778,7 +778,7 @@ pub open spec fn list_row(p: TextPrinter, n: int, sep: Seq<char>, list: Seq<Opti
 
 impl TextProcess {
 //@@ fn textprocess.print_list = src/output_style.rs :: impl TextProcess :: fn print_list
-//@@ safety C15 C16 C05 C20 C06
+//@@ safety C15 C16 C05 C20 C06 C11
 //@@ ret r
 //@@ rewrite write_macros enumerate
 //@@ header
@@ -786,7 +786,7 @@ impl TextProcess {
         ensures
             final(self).length == old(self).length && final(self).line_seperator == old(self).line_seperator && final(self).printer == old(self).printer,
             // exactly one field per element of the list, in order, separated, then the row separator (C15: N fields per row)
-            r is Ok ==> final(self).writer.log() == old(self).writer.log().add(list_row(old(self).printer, old(self).length as int, old(self).line_seperator@, list@)), // @obl PRINT.text.row : C15
+            r is Ok ==> final(self).writer.log() == old(self).writer.log().add(list_row(old(self).printer, old(self).length as int, old(self).line_seperator@, list@)), // @obl PRINT.text.row : C15 C11
             is_pre(old(self).writer.log(), final(self).writer.log()), // @obl PRINT.text.row_prefix : C16 C20
             r is Ok ==> r->Ok_0 is Continue,
 //@@ body-start
@@ -823,7 +823,7 @@ impl Process for TextProcess {
     }
 
 //@@ fn textprocess.complete = src/output_style.rs :: impl Process for TextProcess :: fn complete
-//@@ safety C15 C03 C16 C20 C06
+//@@ safety C15 C03 C16 C20 C06 C11
 //@@ endfn
 //@@ fn textprocess.start = src/output_style.rs :: impl Process for TextProcess :: fn start
 //@@ safety C15 C18 C03 C16 C20
@@ -838,7 +838,7 @@ impl Process for TextProcess {
             r is Ok ==> final(self).length == titles_so_far.names().len(),
 //@@ endfn
 //@@ fn textprocess.process = src/output_style.rs :: impl Process for TextProcess :: fn process
-//@@ safety C15 C16 C03 C20 C06
+//@@ safety C15 C16 C03 C20 C06 C11
 //@@ rewrite write_macros
 //@@ body-start
         let ghost l0 = self.writer.log();
